@@ -56,7 +56,7 @@ package message
 
 //@ func (*Message).ensureData
 //@   props C01 C02 C13 C14
-//@   requires inv: msgInv(m)
+//@   requires inv: [typeinv] msgInv(m)
 //@   assigns @msgRead
 //@   loop 1 invariant inv: msgInv(m) && m.buffer == old(m.buffer) && viewLen(m) >= old(viewLen(m)) && rdTotal >= old(rdTotal) && openOKCount >= old(openOKCount)
 //@   loop 1 invariant prefix: forall i :: 0 <= i && i < old(viewLen(m)) ==> viewAt(m, i) == old(viewAt(m, i))
@@ -83,7 +83,7 @@ package message
 
 //@ func (*Message).FlushFrame
 //@   props C01 C09 C14
-//@   requires inv: encInv(m)
+//@   requires inv: [typeinv] encInv(m)
 //@   assigns @msgWrite
 //@   ensures wrong_dir: m.direction != CodingEncode ==> err != nil && wrCount == old(wrCount) && viewLen(m) == old(viewLen(m))
 //@   ensures flushed: [C01] err == nil ==> viewLen(m) == 0 && wrCount == old(wrCount) + 1 && wrLast[0] == ite(isEOM, 1, 0)
@@ -100,7 +100,7 @@ package message
 
 //@ func (*Message).FinishMessage
 //@   props C01
-//@   requires inv: encInv(m)
+//@   requires inv: [typeinv] encInv(m)
 //@   assigns @msgWrite
 //@   ensures all_sealed: [C09] strmEncrypting && strmKeyed ==> wrCount - old(wrCount) <= sealCount - old(sealCount)
 //@   ensures none_sealed: [C09] !(strmEncrypting && strmKeyed) ==> sealCount == old(sealCount)
@@ -111,7 +111,7 @@ package message
 
 //@ func (*Message).GetChar (m, ctx) (result, err)
 //@   props C14 C13 C01
-//@   requires inv: msgInv(m)
+//@   requires inv: [typeinv] msgInv(m)
 //@   assigns @msgRead
 //@   ensures value: [C14] err == nil && old(viewLen(m)) >= 1 ==> result == old(viewAt(m, 0)) && viewLen(m) == old(viewLen(m)) - 1 && rdTotal == old(rdTotal)
 //@   ensures rest: [C14] err == nil && old(viewLen(m)) >= 1 ==> forall i :: 0 <= i && i < viewLen(m) ==> viewAt(m, i) == old(viewAt(m, i + 1))
@@ -121,7 +121,7 @@ package message
 
 //@ func (*Message).GetInt (m, ctx) (result, err)
 //@   props C14 C13 C01
-//@   requires inv: msgInv(m)
+//@   requires inv: [typeinv] msgInv(m)
 //@   assigns @msgRead
 //@   ensures value: [C14] err == nil && old(viewLen(m)) >= 8 ==> result == s64(old(viewBE64(m, 0))) && viewLen(m) == old(viewLen(m)) - 8 && rdTotal == old(rdTotal)
 //@   ensures rest: [C14] err == nil && old(viewLen(m)) >= 8 ==> forall i :: 0 <= i && i < viewLen(m) ==> viewAt(m, i) == old(viewAt(m, i + 8))
@@ -133,7 +133,7 @@ package message
 
 //@ func (*Message).GetInt32 (m, ctx) (result, err)
 //@   props C14 C13
-//@   requires inv: msgInv(m)
+//@   requires inv: [typeinv] msgInv(m)
 //@   assigns @msgRead
 //@   ensures value: [C14] err == nil && old(viewLen(m)) >= 8 ==> result == int32(s64(old(viewBE64(m, 0)))) && viewLen(m) == old(viewLen(m)) - 8 && rdTotal == old(rdTotal)
 //@   ensures rest: [C14] err == nil && old(viewLen(m)) >= 8 ==> forall i :: 0 <= i && i < viewLen(m) ==> viewAt(m, i) == old(viewAt(m, i + 8))
@@ -145,7 +145,7 @@ package message
 
 //@ func (*Message).GetInt64 (m, ctx) (result, err)
 //@   props C14
-//@   requires inv: msgInv(m)
+//@   requires inv: [typeinv] msgInv(m)
 //@   assigns @msgRead
 //@   ensures value: err == nil && old(viewLen(m)) >= 8 ==> result == s64(old(viewBE64(m, 0))) && viewLen(m) == old(viewLen(m)) - 8
 //@   ensures inv_kept: msgInv(m)
@@ -153,7 +153,7 @@ package message
 
 //@ func (*Message).GetUint32 (m, ctx) (result, err)
 //@   props C14
-//@   requires inv: msgInv(m)
+//@   requires inv: [typeinv] msgInv(m)
 //@   assigns @msgRead
 //@   ensures value: err == nil && old(viewLen(m)) >= 8 ==> result == uint32(s64(old(viewBE64(m, 0)))) && viewLen(m) == old(viewLen(m)) - 8
 //@   ensures inv_kept: msgInv(m)
@@ -161,7 +161,7 @@ package message
 
 //@ func (*Message).PutChar
 //@   props C14 C01
-//@   requires inv: encInv(m)
+//@   requires inv: [typeinv] encInv(m)
 //@   assigns @msgWrite
 //@   ensures all_sealed: [C09] strmEncrypting && strmKeyed ==> wrCount - old(wrCount) <= sealCount - old(sealCount)
 //@   ensures none_sealed: [C09] !(strmEncrypting && strmKeyed) ==> sealCount == old(sealCount)
@@ -173,7 +173,7 @@ package message
 
 //@ func (*Message).PutInt
 //@   props C14 C01
-//@   requires inv: encInv(m)
+//@   requires inv: [typeinv] encInv(m)
 //@   assigns @msgWrite
 //@   ensures all_sealed: [C09] strmEncrypting && strmKeyed ==> wrCount - old(wrCount) <= sealCount - old(sealCount)
 //@   ensures none_sealed: [C09] !(strmEncrypting && strmKeyed) ==> sealCount == old(sealCount)
@@ -189,7 +189,7 @@ package message
 
 //@ func (*Message).PutInt32
 //@   props C14
-//@   requires inv: encInv(m)
+//@   requires inv: [typeinv] encInv(m)
 //@   assigns @msgWrite
 //@   ensures all_sealed: [C09] strmEncrypting && strmKeyed ==> wrCount - old(wrCount) <= sealCount - old(sealCount)
 //@   ensures none_sealed: [C09] !(strmEncrypting && strmKeyed) ==> sealCount == old(sealCount)
@@ -202,7 +202,7 @@ package message
 
 //@ func (*Message).PutInt64
 //@   props C14
-//@   requires inv: encInv(m)
+//@   requires inv: [typeinv] encInv(m)
 //@   assigns @msgWrite
 //@   let base = ite(old(viewLen(m)) + 8 > 16384, 0, old(viewLen(m)))
 //@   ensures layout: err == nil ==> viewLen(m) == base + 8 && viewBE64(m, base) == value % 18446744073709551616
@@ -211,7 +211,7 @@ package message
 
 //@ func (*Message).PutUint32
 //@   props C14
-//@   requires inv: encInv(m)
+//@   requires inv: [typeinv] encInv(m)
 //@   assigns @msgWrite
 //@   let base = ite(old(viewLen(m)) + 8 > 16384, 0, old(viewLen(m)))
 //@   ensures layout: err == nil ==> viewLen(m) == base + 8 && viewBE64(m, base) == value
@@ -220,8 +220,8 @@ package message
 
 //@ func (*Message).PutBytes
 //@   props C01 C14
-//@   requires inv: encInv(m)
-//@   requires noalias: ref(data) >= 0 && (ref(data) != ref(m.buffer.buf) || ref(data) == 0)
+//@   requires inv: [typeinv] encInv(m)
+//@   requires noalias: [typeinv] ref(data) >= 0 && (ref(data) != ref(m.buffer.buf) || ref(data) == 0)
 //@   assigns @msgWrite
 //@   ensures all_sealed: [C09] strmEncrypting && strmKeyed ==> wrCount - old(wrCount) <= sealCount - old(sealCount)
 //@   ensures none_sealed: [C09] !(strmEncrypting && strmKeyed) ==> sealCount == old(sealCount)
@@ -240,7 +240,7 @@ package message
 
 //@ func (*Message).GetBytes (m, ctx, numBytes) (result, err)
 //@   props C13 C14 C01
-//@   requires inv: msgInv(m)
+//@   requires inv: [typeinv] msgInv(m)
 //@   assigns @msgRead
 //@   alloc 1 viewLen(m)
 //@   ensures value: [C14] err == nil && numBytes > 0 && old(viewLen(m)) >= numBytes ==> len(result) == numBytes && viewLen(m) == old(viewLen(m)) - numBytes && forall i :: 0 <= i && i < numBytes ==> result[i] == old(viewAt(m, i))
@@ -251,7 +251,7 @@ package message
 
 //@ func (*Message).discard
 //@   props C13 C08
-//@   requires inv: msgInv(m)
+//@   requires inv: [typeinv] msgInv(m)
 //@   assigns @msgRead
 //@   loop 1 invariant inv: msgInv(m) && m.buffer == old(m.buffer) && m.stream == old(m.stream) && n <= old(n) && rdTotal >= old(rdTotal)
 //@   loop 1 invariant buf_own: ref(m.buffer.buf) == old(ref(m.buffer.buf)) || fresh(m.buffer.buf)
@@ -267,7 +267,7 @@ package message
 
 //@ func (*Message).GetString (m, ctx) (result, err)
 //@   props C13 C14 C08
-//@   requires inv: msgInv(m)
+//@   requires inv: [typeinv] msgInv(m)
 //@   assigns @msgRead
 //@   alloc 1 viewLen(m)
 //@   let L = int32(s64(old(viewBE64(m, 0))))
@@ -282,7 +282,7 @@ package message
 
 //@ func (*Message).GetStringWithMaxSize (m, ctx, maxSize) (result, err)
 //@   props C13 C14
-//@   requires inv: msgInv(m)
+//@   requires inv: [typeinv] msgInv(m)
 //@   assigns @msgRead
 //@   alloc 1 maxSize
 //@   loop 1 invariant inv: msgInv(m) && m.buffer == old(m.buffer) && m.stream == old(m.stream) && rdTotal >= old(rdTotal) && (result == nil || fresh(result)) && ref(result) >= 0
@@ -299,7 +299,7 @@ package message
 
 //@ func (*Message).SkipString
 //@   props C13 C08
-//@   requires inv: msgInv(m)
+//@   requires inv: [typeinv] msgInv(m)
 //@   assigns @msgRead
 //@   loop 1 invariant inv: msgInv(m) && m.buffer == old(m.buffer) && m.stream == old(m.stream) && rdTotal >= old(rdTotal)
 //@   loop 1 invariant buf_own: ref(m.buffer.buf) == old(ref(m.buffer.buf)) || fresh(m.buffer.buf)
@@ -308,7 +308,7 @@ package message
 
 //@ func (*Message).GetRemainingBytes (m, ctx) (result, err)
 //@   props C13 C01
-//@   requires inv: msgInv(m)
+//@   requires inv: [typeinv] msgInv(m)
 //@   assigns @msgRead
 //@   alloc 1 viewLen(m)
 //@   loop 1 invariant inv: msgInv(m) && m.buffer == old(m.buffer) && m.stream == old(m.stream) && rdTotal >= old(rdTotal) && viewLen(m) >= old(viewLen(m))
@@ -321,8 +321,8 @@ package message
 
 //@ func (*Message).PutStringBytes
 //@   props C01 C14 C09
-//@   requires inv: encInv(m)
-//@   requires noalias: ref(b) >= 0 && (ref(b) != ref(m.buffer.buf) || ref(b) == 0)
+//@   requires inv: [typeinv] encInv(m)
+//@   requires noalias: [typeinv] ref(b) >= 0 && (ref(b) != ref(m.buffer.buf) || ref(b) == 0)
 //@   assigns @msgWrite
 //@   ensures all_sealed: [C09] strmEncrypting && strmKeyed ==> wrCount - old(wrCount) <= sealCount - old(sealCount)
 //@   ensures none_sealed: [C09] !(strmEncrypting && strmKeyed) ==> sealCount == old(sealCount)
@@ -332,7 +332,7 @@ package message
 
 //@ func (*Message).PutString
 //@   props C01 C14 C09
-//@   requires inv: encInv(m)
+//@   requires inv: [typeinv] encInv(m)
 //@   assigns @msgWrite
 //@   ensures all_sealed: [C09] strmEncrypting && strmKeyed ==> wrCount - old(wrCount) <= sealCount - old(sealCount)
 //@   ensures none_sealed: [C09] !(strmEncrypting && strmKeyed) ==> sealCount == old(sealCount)
@@ -343,7 +343,7 @@ package message
 // ---- doubles (C14): frexp/ldexp over the reals; see /verif/specs/math.spec for what is idealised ---------------
 //@ func (*Message).PutDouble
 //@   props C14
-//@   requires inv: encInv(m)
+//@   requires inv: [typeinv] encInv(m)
 //@   assigns @msgWrite
 //@   let b1 = ite(old(viewLen(m)) + 8 > 16384, 0, old(viewLen(m)))
 //@   let b2 = ite(b1 + 16 > 16384, 0, b1 + 8)
@@ -355,7 +355,7 @@ package message
 
 //@ func (*Message).GetDouble (m, ctx) (result, err)
 //@   props C14 C13
-//@   requires inv: msgInv(m)
+//@   requires inv: [typeinv] msgInv(m)
 //@   assigns @msgRead
 //@   let fi = int32(s64(old(viewBE64(m, 0))))
 //@   let ex = int32(s64(old(viewBE64(m, 8))))
@@ -427,7 +427,7 @@ package message
 
 //@ func (*Message).putSecretExpr
 //@   props C09
-//@   requires inv: encInv(m)
+//@   requires inv: [typeinv] encInv(m)
 //@   assigns @msgWrite, strmEncrypting, strmSaved, @strmToggle(m.stream)
 //@   let canSeal = typeis(m.stream, "*stream.Stream") && old(strmKeyed)
 //@   ensures restored: strmEncrypting == old(strmEncrypting)
@@ -440,7 +440,7 @@ package message
 
 //@ func (*Message).getSecretString (m, ctx) (result, err)
 //@   props C09 C13
-//@   requires inv: msgInv(m)
+//@   requires inv: [typeinv] msgInv(m)
 //@   assigns @msgRead, strmEncrypting, strmSaved, @strmToggle(m.stream)
 //@   ensures restored: typeis(m.stream, "*stream.Stream") ==> strmEncrypting == old(strmEncrypting)
 //@   ensures inv_kept: msgInv(m)
@@ -452,7 +452,7 @@ package message
 
 //@ func putClassAdToMessageWithOptions
 //@   props C09
-//@   requires inv: encInv(m) && ad != nil
+//@   requires inv: [typeinv] encInv(m) && ad != nil
 //@   assigns @msgWrite, strmEncrypting, strmSaved, @strmToggle(m.stream)
 //@   assert before call filterAttributesByPrivacy #1 flags_from_statement: arg1 == exclOf(config) && arg2 == exclV2Of(config)
 //@   assert before call filterAttributesByWhitelist #1 flags_from_statement: arg3 == exclOf(config) && arg4 == exclV2Of(config)
